@@ -9,7 +9,11 @@ implementation's outputs; `mateFull` adds numpy's index rule for `xconfig` and t
 PybropsModel/Model/Pedigree.lean (`lineage`, the pedigree terms, the joint test `pedCheck`, `specMate`).
 Helper lemmas: PybropsModel/Lemmas/{MeiosisLoop,Mosaic,MosaicPath,Repeat,MatingStages,MatingProtocols,
 MatingSort,MatingSpec,MatingTotal,MatingFull,Pedigree,PedigreeSpec,PedCheck,PedCheckConv,SpecSound,
-SpecComplete,SpecCompleteMate}.lean.
+SpecComplete,SpecCompleteMate,MatingOrder,DenseMate,UtilSpec,SpecIff,SpecCompleteSelf,SpecCompleteCex,MateHeap}.lean.
+Round 3 adds: PybropsModel/Model/DenseMate.lean (buffer-level transcription of core/util/mate.py, section 1b),
+PybropsModel/Model/MateHeap.lean (the array traffic of `mate()` on a heap, section 2c); the row order for all
+counters (`order_characterised`); `spec_iff`; completeness of the Spec for the self / two-way protocols with up
+to two selfings and of the utility Specs; counterexamples showing the extra hypotheses are needed.
 
 Conventions.  `mate … = .ok out` says the model accepts the input (rectangular diploid matrix,
 xconfig of the protocol's width, count arrays of length ncross, every selected index inside the
@@ -26,6 +30,14 @@ import PybropsModel.Lemmas.SpecSound
 import PybropsModel.Lemmas.MatingFull
 import PybropsModel.Lemmas.SpecCompleteMate
 import PybropsModel.Lemmas.PedCheckConv
+import PybropsModel.Lemmas.MatingOrder
+import PybropsModel.Lemmas.DenseMate
+import PybropsModel.Lemmas.UtilSpec
+import PybropsModel.Lemmas.SpecIff
+import PybropsModel.Lemmas.SpecCompleteSelf
+import PybropsModel.Lemmas.SpecCompleteCex
+import PybropsModel.Lemmas.MateHeap
+import PybropsModel.Lemmas.CountProduct
 set_option autoImplicit false
 set_option linter.unusedSectionVars false
 
@@ -83,6 +95,52 @@ example : gameteLoop (α := Int) ([1, 2, 3, 4], [11, 12, 13, 14]) [true, false, 
 example : gamete (α := Int) ([1, 2, 3, 4], [11, 12, 13, 14]) [true, false, true, false] = [11, 12, 3, 4] := by decide
 example : phaseAt [true, false, true, false] 1 = true ∧ phaseAt [true, false, true, false] 2 = false := by decide
 example : xoMask (ρ := Int) [0, 0, 1, 1] [1, 0, 2, 1] = [true, false, true, false] := by decide
+
+/-! ## 1b. The duplicate family `dense_meiosis` / `dense_dh` / `dense_cross` (pybrops/core/util/mate.py) -/
+
+section dense
+variable {α ρ : Type} [LT ρ] [DecidableLT ρ]
+
+/-- `dense_meiosis`, transcribed with its output buffer explicit (`numpy.empty` content `emp` = arbitrary;
+    `gamete[i,stix:spix] = geno[phase,s,stix:spix]` = `DenseMate.sliceAssign`), returns exactly what the
+    model of `mat_meiosis` returns — whatever the uninitialised buffer contained: every cell is written. -/
+theorem dense_meiosis_eq (pop : Pop α) (sel : List Nat) (xo : List ρ) (rnd : DrawMat ρ) (emp : List (List α))
+    (hs : DenseMate.SelShaped pop sel xo.length) (he : drawsShaped sel.length xo.length emp = true) :
+    DenseMate.denseMeiosisE pop sel xo rnd emp = meiosisE pop sel xo rnd :=
+  DenseMate.denseMeiosisE_eq pop sel xo rnd emp hs he
+
+/-- `dense_dh` = `mat_dh` -/
+theorem dense_dh_eq (pop : Pop α) (sel : List Nat) (xo : List ρ) (r : DrawMat ρ) (rest : List (DrawMat ρ))
+    (e : List (List α)) (es : List (List (List α)))
+    (hs : DenseMate.SelShaped pop sel xo.length) (he : drawsShaped sel.length xo.length e = true) :
+    DenseMate.denseDhE pop sel xo (r :: rest) (e :: es) = dhE pop sel xo (r :: rest) :=
+  DenseMate.denseDhE_eq pop sel xo r rest e es hs he
+
+/-- `dense_cross` = `mat_mate` -/
+theorem dense_cross_eq (fpop mpop : Pop α) (fsel msel : List Nat) (xo : List ρ) (rf rm : DrawMat ρ)
+    (rest : List (DrawMat ρ)) (ef em : List (List α)) (es : List (List (List α)))
+    (hf : DenseMate.SelShaped fpop fsel xo.length) (hm : DenseMate.SelShaped mpop msel xo.length)
+    (hef : drawsShaped fsel.length xo.length ef = true) (hem : drawsShaped msel.length xo.length em = true) :
+    DenseMate.denseCrossE fpop mpop fsel msel xo (rf :: rm :: rest) (ef :: em :: es)
+      = mateE fpop mpop fsel msel xo (rf :: rm :: rest) :=
+  DenseMate.denseCrossE_eq fpop mpop fsel msel xo rf rm rest ef em es hf hm hef hem
+
+/-- one row, any buffer content -/
+theorem dense_row_ignores_buffer (buf : List α) (ind : Ind α) (mask : List Bool)
+    (hb : buf.length = mask.length) (h0 : ind.1.length = mask.length) (h1 : ind.2.length = mask.length) :
+    DenseMate.denseRow buf ind mask = gamete ind mask := by
+  rw [DenseMate.denseRow_eq buf ind mask hb h0 h1, gameteLoop_eq_gamete ind mask h0 h1]
+
+end dense
+
+example : DenseMate.denseRow (α := Int) [99, 98, 97, 96] ([1, 2, 3, 4], [11, 12, 13, 14]) [true, false, true, false]
+    = [11, 12, 3, 4] := by decide
+example : DenseMate.denseMeiosisE (α := Int) (ρ := Int) [([1, 2, 3], [4, 5, 6]), ([7, 8, 9], [10, 11, 12])] [1, 0] [1, 0, 1]
+    [[0, 0, 0], [1, 0, 0]] [[55, 55, 55], [-7, -8, -9]] = .ok [[10, 11, 9], [1, 2, 6]] := by decide +kernel
+example : DenseMate.SelShaped (α := Int) [([1, 2, 3], [4, 5, 6]), ([7, 8, 9], [10, 11, 12])] [1, 0] 3 := by
+  intro s hs ind hi
+  simp at hs
+  rcases hs with rfl | rfl <;> simp at hi <;> subst hi <;> simp
 
 /-! ## 2. The seven protocols -/
 
@@ -175,6 +233,24 @@ theorem order_preserved_partial (h : mate P pop xc nmating nprogeny nself xo pc 
   rw [hc] at hsmall ⊢
   exact hs hsmall
 
+/-- **Row order for ALL counter values** (no `10^7` hypothesis).  `group_taxa()` sorts on (family, name-string) and
+    `str(i).zfill(7)` is injective, so: the (family, name) keys of the result are a permutation of the generated
+    pairs `(family_counter + cross, prefix ++ zfill7 (progeny_counter + k))`, they are STRICTLY increasing in
+    (family, then name compared as a string), and they are the only arrangement of the generated pairs with that
+    property.  Below the overflow this arrangement is the generation order (`order_preserved_partial`); above
+    it, it is what `order_preserved_counterexample` shows. -/
+theorem order_characterised (h : mate P pop xc nmating nprogeny nself xo pc fc draws = .ok out) :
+    ∃ nm np, nmating.expand xc.length = .ok nm ∧ nprogeny.expand xc.length = .ok np ∧
+      let per := List.zipWith (· * ·) nm np
+      let gen := List.zip (Np.repeatEach per (Np.arange fc xc.length)) ((Np.arange pc per.sum).map (name P.pre))
+      (out.rows.map rowKey).Perm gen ∧ (out.rows.map rowKey).Pairwise keyLt ∧
+      ∀ l : List (Nat × List Nat), l.Perm gen → l.Pairwise keyLt → l = out.rows.map rowKey :=
+  mate_order h
+
+/-- `prefix + str(i).zfill(7)` names different progeny differently, for every counter value. -/
+theorem names_injective (pre : List Nat) {a b : Nat} (h : name pre a = name pre b) : a = b :=
+  name_inj pre h
+
 /-- **Acceptance.**  The hypothesis `mate … = .ok out` of the theorems above is met by every valid
     input: rectangular diploid matrix with `len(xoprob)` markers, configuration of the protocol's
     width naming only taxa of the matrix, count arrays (or scalars) with one entry per cross, and
@@ -198,6 +274,28 @@ theorem order_preserved_counterexample :
     ∧ [name [50, 119] 10000000, name [50, 119] 10000001, name [50, 119] 9999998, name [50, 119] 9999999]
       ≠ (Np.arange 9999998 4).map (name [50, 119]) := by
   decide +kernel
+
+/-! ## 2a. Count arrays of a narrow integer dtype (finding D70) -/
+
+/-- `SelfCross`, `TwoWayCross` and `ThreeWayCross` compute `nmating * nprogeny` in the dtype of the count arrays.
+    While every per-cross product stays below the dtype's limit (`2^(bits-1)` signed, `2^bits` unsigned) that
+    product is the exact one, and the theorems of section 2 (stated over ℕ) describe the real code.
+
+    FULL STATEMENT (false of the code as it is, see `count_product_wraps_counterexample`):
+      countProductAsIs bits signed nm np = (zipWith (·*·) nm np).map Int.ofNat   for all nm np. -/
+theorem count_product_exact_partial (bits : Nat) (signed : Bool) (nm np : List Nat)
+    (h : ∀ p ∈ List.zip nm np, p.1 * p.2 < 2 ^ (bits - (if signed then 1 else 0))) :
+    countProductAsIs bits signed nm np = (List.zipWith (fun (x y : Nat) => x * y) nm np).map (fun (n : Nat) => (n : Int)) :=
+  countProductAsIs_exact bits signed nm np h
+
+/-- uint8 counts 20 matings x 13 progeny: the code sees 4 progeny instead of 260; int8 16 x 16: none at all;
+    int8 12 x 11: a negative repeat count (numpy raises).  Replayed on the real `SelfCross` / `TwoWayCross` /
+    `ThreeWayCross` by the corpus cases of finding D70. -/
+theorem count_product_wraps_counterexample :
+    countProductAsIs 8 false [20] [13] = [4] ∧ countProductAsIs 8 true [16] [16] = [0] ∧
+    countProductAsIs 8 true [12] [11] = [-124] ∧ (20 * 13 : Nat) = 260 := by decide
+
+example : ∀ p ∈ List.zip [3, 2] [4, 60], p.1 * p.2 < 2 ^ (8 - (if true then 1 else 0)) := by decide
 
 /-! ## 2b. The public call: marker metadata and numpy's index rule -/
 
@@ -241,6 +339,45 @@ theorem full_call_accepts_valid_inputs {nm np : List Nat} (hs : popShaped pop xo
 
 end full
 
+/-! ## 2c. Parents and marker metadata untouched: the array traffic of `mate()` on a heap -/
+
+section heap
+variable {α ρ : Type} [LT ρ] [DecidableLT ρ]
+
+/-- **Parents untouched (heap model).**  Run the generation at the level of arrays (`MateHeap.generateH`:
+    every `mat_mate` / `mat_dh` reads its operand arrays and appends the arrays it allocates) on any heap `h`
+    whose cell `pg.mat` holds the parental genotypes: whenever the functional model accepts the call, the
+    heap-level run succeeds with the same leftover draws, the progeny array it returns is the one the model
+    generates (`out.rows` is its `group_taxa` arrangement), it lies at a FRESH address, and every cell of the
+    old heap — the parental genotype array, every marker-metadata array, anything else — is unchanged.
+    The progeny object's thirteen metadata fields are the parent's pointers (`progenyObj`), so they denote
+    those same unchanged cells. -/
+theorem parents_untouched_heap {h : MateHeap.Heap α} {pg : MateHeap.GMat} {pop : Pop α} {P : Proto}
+    {xc : List (List Nat)} {nmating nprogeny : Cnt} {nself : Nat} {xo : List ρ} {pc fc : Nat}
+    {draws : List (DrawMat ρ)} {out : Out α}
+    (hg : MateHeap.Holds h pg.mat pop) (hm : mate P pop xc nmating nprogeny nself xo pc fc draws = .ok out) :
+    ∃ nm np prog a h', nmating.expand xc.length = .ok nm ∧ nprogeny.expand xc.length = .ok np ∧
+      MateHeap.generateH h pg.mat P xc nm np nself xo draws = .ok (a, [], h') ∧
+      (∀ b, b < h.length → h'[b]? = h[b]?) ∧ h.length ≤ a ∧ MateHeap.Holds h' a prog ∧
+      out.rows = groupTaxa (genRows P prog pc (families P fc xc.length nm np)) ∧
+      (MateHeap.progenyObj P pg (h'.length)).vmeta = pg.vmeta := by
+  obtain ⟨nm, np, prog, _, hnm, hnp, hgen, _, hrows, _, _⟩ := mate_inv hm
+  obtain ⟨a, h', e, x, o, f⟩ := MateHeap.generateH_sim P hg hgen
+  exact ⟨nm, np, prog, a, h', hnm, hnp, e, fun b hb => x.getElem? hb, f, o, hrows, progenyMeta_eq P pg.vmeta⟩
+
+end heap
+
+/-- non-vacuity: a heap with two unrelated cells in front of the parental matrix; a two-way cross appends three
+    cells (two gamete matrices, the stacked progeny) and returns the address of the last -/
+example : (MateHeap.generateH (α := Int) (ρ := Int) [.other, .geno [([1, 2], [3, 4]), ([5, 6], [7, 8])], .other] 1
+      .twoWay [[0, 1]] [1] [1] 0 [1, 1] [[[0, 0]], [[1, 0]]]).toOption.map (fun r => (r.1, r.2.2.length)) = some (5, 6) := by
+  decide +kernel
+/-- an `out=`-style variant that writes the progeny INTO an operand's cell is not an extension of the heap:
+    the frame statement above is a property of the transcribed code, not of every heap program -/
+example : ¬ MateHeap.Ext (α := Int) [.geno [([1], [2])]] ([MateHeap.Cell.geno [([2], [2])]]) := by
+  rintro ⟨ext, he⟩
+  simp at he
+
 /-! ## 3. The Spec oracle -/
 
 section spec
@@ -255,6 +392,63 @@ theorem spec_sound {P : Proto} {pop : Pop α} {xc : List (List Nat)} {nmating np
     (h : mate P pop xc nmating nprogeny nself xo pc fc draws = .ok out) (hnn : Nonneg draws) :
     (specMate P pop xc nmating nprogeny nself xo pc fc out).1 = true :=
   spec_of_mate h hnn
+
+/-- **What the oracle says.**  `specMate … = true` iff (`Mating.SpecMateProp`): the count arrays expand, the number
+    of rows is `Σ nmating·nprogeny`, the family labels are the repeat pattern, the names are the generated ones
+    (in generation order below the overflow, else a permutation with each name in its family), both counters
+    advanced by the numbers produced, and every row satisfies `Mating.RowSpec`: family label of a cross of the
+    configuration, both copies mosaics of the sources of their side, DH ⇒ homozygous, and for `nself ≤ 2` the
+    joint pedigree test — i.e. exactly the conclusions of the theorems of section 2, stated of `out`. -/
+theorem spec_iff (P : Proto) (pop : Pop α) (xc : List (List Nat)) (nmating nprogeny : Cnt) (nself : Nat)
+    (xo : List ρ) (pc fc : Nat) (out : Out α) :
+    (specMate P pop xc nmating nprogeny nself xo pc fc out).1 = true ↔
+      SpecMateProp P pop xc nmating nprogeny nself xo pc fc out :=
+  specMate_iff P pop xc nmating nprogeny nself xo pc fc out
+
+/-- … and for a valid configuration the joint test inside `RowSpec` is the pedigree itself. -/
+theorem spec_row_is_pedigree {P : Proto} {nself : Nat} {pop : Pop α} {xc : List (List Nat)} {xo : List ρ} {fc : Nat}
+    {r : Row α} (hs : popShaped pop xo.length = true)
+    (hidx : ∀ c ∈ xc, ∀ k, k < P.nparent → c.getD k 0 < pop.length)
+    (hn : nself ≤ jointDepth) (h : RowSpec P nself pop xc xo fc r) :
+    ∃ cross, xc[r.grp - fc]? = some cross ∧ lineage xo P nself pop cross r.ind :=
+  rowSpec_lineage hs hidx hn h
+
+/-- **Spec of the utilities: sound.**  Every output of `mat_meiosis`/`dense_meiosis`, `mat_dh`/`dense_dh`,
+    `mat_mate`/`dense_cross` passes the oracle the harness evaluates on the implementation's arrays. -/
+theorem util_spec_sound {pop mpop : Pop α} {xo : List ρ} (hs : popShaped pop xo.length = true)
+    (hm : popShaped mpop xo.length = true) {sel msel : List Nat} :
+    (∀ {rnd : DrawMat ρ} {gs : List (Hap α)}, (∀ r ∈ rnd, ∀ x ∈ r, (0 : ρ) ≤ x) → meiosisE pop sel xo rnd = .ok gs →
+        specGametes pop sel xo gs = true) ∧
+    (∀ {d d' : List (DrawMat ρ)} {o : Pop α}, Nonneg d → dhE pop sel xo d = .ok (o, d') → specDh pop sel xo o = true) ∧
+    (∀ {d d' : List (DrawMat ρ)} {o : Pop α}, Nonneg d → mateE pop mpop sel msel xo d = .ok (o, d') →
+        specCross pop mpop sel msel xo o = true) :=
+  ⟨fun hnn h => specGametes_of_meiosisE (shaped_of_popShaped hs) hnn h,
+   fun hnn h => specDh_of_dhE (shaped_of_popShaped hs) hnn h,
+   fun hnn h => specCross_of_mateE (shaped_of_popShaped hs) (shaped_of_popShaped hm) hnn h⟩
+
+/-- `specGametes` decides "row i is a mosaic of the two copies of taxon sel[i]". -/
+theorem util_spec_iff (pop : Pop α) (xo : List ρ) (sel : List Nat) (rows : List (Hap α)) :
+    specGametes pop sel xo rows = true ↔
+      List.Forall₂ (fun s g => ∃ F, pop[s]? = some F ∧ Mosaic [F.1, F.2] xo g) sel rows :=
+  specGametes_iff pop xo sel rows
+
+/-- **Spec of the utilities: complete** (first marker with positive crossover probability, so that the start copy
+    is free — necessary, see `gamete_start_counterexample`): whatever passes IS an output of the model for some
+    non-negative draws.
+
+    FULL STATEMENT (false, see `gamete_start_counterexample`): the same without `hstart`. -/
+theorem util_spec_complete_partial {ρ' : Type} [LinearOrder ρ'] [Zero ρ'] {pop mpop : Pop α} {xo : List ρ'}
+    (hs : popShaped pop xo.length = true) (hm : popShaped mpop xo.length = true)
+    (hstart : ∀ x, xo.head? = some x → 0 < x) {sel msel : List Nat} :
+    (∀ {gs : List (Hap α)}, specGametes pop sel xo gs = true →
+        ∃ rnd : DrawMat ρ', (∀ r ∈ rnd, ∀ y ∈ r, (0 : ρ') ≤ y) ∧ meiosisE pop sel xo rnd = .ok gs) ∧
+    (∀ {o : Pop α} (rest : List (DrawMat ρ')), specDh pop sel xo o = true →
+        ∃ r : DrawMat ρ', Nonneg [r] ∧ dhE pop sel xo (r :: rest) = .ok (o, rest)) ∧
+    (∀ {o : Pop α} (rest : List (DrawMat ρ')), specCross pop mpop sel msel xo o = true →
+        ∃ rf rm : DrawMat ρ', Nonneg [rf, rm] ∧ mateE pop mpop sel msel xo (rf :: rm :: rest) = .ok (o, rest)) :=
+  ⟨fun h => meiosisE_of_specGametes (shaped_of_popShaped hs) hstart h,
+   fun rest h => dhE_of_specDh (shaped_of_popShaped hs) hstart rest h,
+   fun rest h => mateE_of_specCross (shaped_of_popShaped hs) (shaped_of_popShaped hm) hstart rest h⟩
 
 /-- **Joint pedigree test.**  `Mating.pedCheck` — reachability over the hidden gamete states of
     the pedigree term `pedOf P nself cross`, both chromosome copies read through the *same* state —
@@ -283,8 +477,11 @@ theorem lineage_is_term_meaning (xo : List ρ) (P : Proto) (nself : Nat) (pop : 
 /-- **Completeness at the gamete.**  Conversely to `gamete_mosaic` / `phase_switch_only_where_xo_pos`:
     every mosaic of the two copies of an individual (switches only where xo > 0; first marker with
     positive crossover probability, so that the start copy is free) is the gamete the model produces
-    for suitable non-negative draws. -/
-theorem gamete_realised {ρ' : Type} [LinearOrder ρ'] [Zero ρ'] (xo : List ρ') (ind : Ind α) (g : List α)
+    for suitable non-negative draws.
+
+    FULL STATEMENT (false, see `gamete_start_counterexample`): the same without `hstart` — with `xoprob[0] = 0`
+    the loop always starts on copy 0 while the mosaic predicate leaves the start copy free. -/
+theorem gamete_realised_partial {ρ' : Type} [LinearOrder ρ'] [Zero ρ'] (xo : List ρ') (ind : Ind α) (g : List α)
     (l0 : ind.1.length = xo.length) (l1 : ind.2.length = xo.length)
     (hstart : ∀ x, xo.head? = some x → 0 < x) (hm : Mosaic [ind.1, ind.2] xo g) :
     ∃ r : List ρ', r.length = xo.length ∧ (∀ y ∈ r, (0 : ρ') ≤ y) ∧ gamete ind (xoMask r xo) = g :=
@@ -309,6 +506,41 @@ theorem spec_complete_twoWay_partial {ρ' : Type} [LinearOrder ρ'] [Zero ρ'] {
       out'.rows = out.rows ∧ out'.pc = out.pc ∧ out'.fc = out.fc :=
   spec_complete_twoWay hs hw hstart hsmall hspec
 
+/-- **Completeness of the Spec beyond `nself = 0`: self and two-way protocol, up to two selfing generations**
+    (the depth up to which the Spec contains the joint pedigree test).  If `specMate` is true of an output (valid
+    input, first marker with positive crossover probability, names below the overflow) then that output IS the
+    model's output for some non-negative draws: the hybrids of every generation are read off the runs of hidden
+    states the joint test finds (`joint_pedigree_test_decides`) and `selfLoop` is driven to reproduce them.
+
+    FULL STATEMENT (false as it stands, three reasons, each with a witness):
+      (specMate P pop xc nmating nprogeny nself xo pc fc out).1 = true →
+        ∃ draws, Nonneg draws ∧ ∃ out', mate P pop xc nmating nprogeny nself xo pc fc draws = .ok out' ∧ …
+    * above the name overflow the Spec accepts every arrangement inside a family, the model yields the sorted one
+      (`spec_complete_names_counterexample`);
+    * with `xoprob[0] = 0` the model never starts a gamete on copy 1 (`gamete_start_counterexample`);
+    * for the five protocols in which several progeny share one intermediate hybrid (DH lines of one mating,
+      back-cross / four-way progeny of one F1) the Spec judges rows one by one and does not demand that siblings
+      share the hybrid; and beyond two selfings it has only the per-copy test. -/
+theorem spec_complete_selfed_partial {ρ' : Type} [LinearOrder ρ'] [Zero ρ'] {P : Proto} (hP : P = .self ∨ P = .twoWay)
+    {pop : Pop α} {xc : List (List Nat)} {nmating nprogeny : Cnt} {nself : Nat} {xo : List ρ'} {pc fc : Nat} {out : Out α}
+    (hn : nself ≤ jointDepth) (hs : popShaped pop xo.length = true) (hw : ∀ r ∈ xc, r.length = P.nparent)
+    (hidx : ∀ r ∈ xc, ∀ s ∈ r, s < pop.length)
+    (hstart : ∀ x, xo.head? = some x → 0 < x) (hsmall : pc + out.rows.length ≤ 10 ^ 7)
+    (hspec : (specMate P pop xc nmating nprogeny nself xo pc fc out).1 = true) :
+    ∃ draws : List (DrawMat ρ'), Nonneg draws ∧ ∃ out', mate P pop xc nmating nprogeny nself xo pc fc draws = .ok out' ∧
+      out'.rows = out.rows ∧ out'.pc = out.pc ∧ out'.fc = out.fc :=
+  spec_complete_selfed hP hn hs hw hidx hstart hsmall hspec
+
+/-- every chain of selfings that `selfN` describes is produced by `selfLoop` for suitable non-negative draws
+    (first marker with positive crossover probability; without it see `gamete_start_counterexample`) -/
+theorem selfing_chain_realised_partial {ρ' : Type} [LinearOrder ρ'] [Zero ρ'] (xo : List ρ')
+    (hstart : ∀ x, xo.head? = some x → 0 < x) (n : Nat) (Qs : List (Ind α → Prop)) (T : Pop α)
+    (hq : ∀ q ∈ Qs, ∀ c, q c → c.1.length = xo.length ∧ c.2.length = xo.length)
+    (h : List.Forall₂ (fun q t => selfN xo n q t) Qs T) :
+    ∃ (pop0 : Pop α) (ds : List (DrawMat ρ')), List.Forall₂ (fun q c => q c) Qs pop0 ∧ Nonneg ds ∧
+      ∀ rest, selfLoop xo (Np.arange 0 T.length) n pop0 (ds ++ rest) = .ok (T, rest) :=
+  selfLoop_realises xo hstart n Qs T hq h
+
 /-- The reachability test used by the Spec decides the mosaic predicate exactly. -/
 theorem mosaicCheck_correct (srcs : List (List α)) (xo : List ρ) (o : List α) :
     mosaicCheck srcs xo o = true ↔ Mosaic srcs xo o :=
@@ -324,6 +556,24 @@ theorem mosaic_meaning {srcs : List (List α)} {xo : List ρ} {o : List α} (h :
   h.path
 
 end spec
+
+/-- Above the 7-digit overflow the Spec is strictly weaker than the model: two progeny generated at
+    `progeny_counter = 9999999` returned in GENERATION order pass `specMate`, but the model returns them
+    string-sorted for every draw (so `hsmall` in the completeness theorems cannot be dropped). -/
+theorem spec_complete_names_counterexample :
+    (specMate (ρ := Int) .twoWay cexPop [[0, 1]] (.scalar 1) (.scalar 2) 0 [1] 9999999 0 cexOut).1 = true ∧
+    ∀ (draws : List (DrawMat Int)) (out' : Out Int),
+      mate .twoWay cexPop [[0, 1]] (.scalar 1) (.scalar 2) 0 [1] 9999999 0 draws = .ok out' → out'.rows ≠ cexOut.rows :=
+  ⟨cexOut_spec, cexOut_unreachable⟩
+
+/-- With `xoprob[0] = 0`: `[2]` is a mosaic of the copies `[1]`, `[2]` (the start copy is free in the mosaic
+    predicate, as in the property text, which only restricts CHANGES of the source copy), but no non-negative draw
+    makes the model's gamete start on copy 1 (so `hstart` in `gamete_realised_partial` and in the completeness theorems
+    cannot be dropped). -/
+theorem gamete_start_counterexample :
+    Mosaic (ρ := Int) [[1], [2]] [0] ([2] : List Int) ∧
+    ∀ r : List Int, (∀ y ∈ r, (0 : Int) ≤ y) → gamete (([1], [2]) : Ind Int) (xoMask r [0]) ≠ [2] :=
+  ⟨cexStart_mosaic, cexStart_unreachable⟩
 
 /-! ## Non-vacuity: every protocol accepts a concrete input with crossovers, selfing and array counts -/
 
@@ -365,6 +615,17 @@ example : (specMate .twoWay demoPop [[0, 1]] (.scalar 1) (.scalar 2) 0 demoXo 5 
 example : mosaicCheck (α := Int) (ρ := Int) [[1, 2, 3], [4, 5, 6]] [1, 0, 1] [1, 5, 6] = false
     ∧ mosaicCheck (α := Int) (ρ := Int) [[1, 2, 3], [4, 5, 6]] [1, 0, 1] [1, 2, 6] = true := by decide +kernel
 
+/-- inputs of `spec_complete_selfed_partial`: a selfed two-way progeny accepted by the Spec with `nself = 1` -/
+example : (specMate .twoWay demoPop [[0, 1]] (.scalar 1) (.scalar 1) 1 demoXo 0 0
+    ⟨[⟨([4, 5, 12], [7, 8, 6]), name [50, 119] 0, 0⟩], 1, 1, []⟩).1 = true ∧ (1 : Nat) ≤ jointDepth
+    ∧ (∀ r ∈ ([[0, 1]] : List (List Nat)), ∀ s ∈ r, s < demoPop.length) := by
+  refine ⟨by decide +kernel, by decide, by decide⟩
+/-- the utility oracles on concrete arrays -/
+example : specGametes (ρ := Int) demoPop [1, 0] demoXo [[10, 11, 9], [1, 2, 6]] = true
+    ∧ specGametes (ρ := Int) demoPop [1, 0] demoXo [[10, 8, 9], [1, 2, 6]] = false
+    ∧ specDh (ρ := Int) demoPop [2] demoXo [([13, 14, 18], [13, 14, 18])] = true
+    ∧ specDh (ρ := Int) demoPop [2] demoXo [([13, 14, 18], [13, 14, 15])] = false
+    ∧ specCross (ρ := Int) demoPop demoPop [0] [3] demoXo [([1, 2, 3], [22, 23, 21])] = true := by decide +kernel
 example : ∀ x, demoXo.head? = some x → 0 < x := by intro x h; simp [demoXo] at h; omega
 example : ∀ r ∈ ([[0, 1]] : List (List Nat)), r.length = 2 := by decide
 example : ∀ k, k < Proto.threeWay.nparent → ([0, 1, 2] : List Nat).getD k 0 < demoPop.length := by decide
